@@ -1151,6 +1151,162 @@ theorem totalAwarded_plain_aux {q : Rat} (hq : 0 < q) (ae : Bool) (votes : Votes
   intro p hp
   exact wholeAward_nil hq ae p (hv p hp)
 
+theorem count_slotKey_tie (votes : Votes) (n : Nat) (T : List Cand) (h : Slot.tie T ∈ getNBest votes n) :
+    ((getNBest votes n).map slotKey).count (mkTie T) = (getNBest votes n).count (Slot.tie T) := by
+  obtain ⟨k, j, T0, hs⟩ := getNBest_shape votes n
+  rw [hs] at h ⊢
+  have hT : T = T0 := by
+    rcases List.mem_append.mp h with h | h
+    · obtain ⟨x, _, hx⟩ := List.mem_map.mp h; cases hx
+    · have := (List.mem_replicate.mp h).2; injection this
+  subst hT
+  rw [List.map_append, List.count_append, List.count_append, List.map_replicate]
+  have h1 : ((((sortDesc votes).take k).map (fun p => Slot.cand p.1)).map slotKey).count (mkTie T) = 0 := by
+    rw [List.count_eq_zero]
+    intro hm
+    obtain ⟨x, hx, hxe⟩ := List.mem_map.mp hm
+    obtain ⟨y, _, rfl⟩ := List.mem_map.mp hx
+    simp [slotKey, mkTie] at hxe
+  have h2 : (((sortDesc votes).take k).map (fun p => Slot.cand p.1)).count (Slot.tie T) = 0 := by
+    rw [List.count_eq_zero]
+    intro hm
+    obtain ⟨y, _, hy⟩ := List.mem_map.mp hm
+    cases hy
+  rw [h1, h2]
+  show 0 + (List.replicate j (mkTie T)).count (mkTie T) = 0 + (List.replicate j (Slot.tie T)).count (Slot.tie T)
+  rw [List.count_replicate_self, List.count_replicate_self]
+
+/-! ### exact quotas -/
+
+/-- facts about an exact quota `q = V / (n + k)` (`k = 0` Hare, `1` Hagenbach-Bischoff, `2` Imperiali): it is
+    positive, the shares `v/q` add up to `n + k`, and the whole quotas stay below that -/
+theorem exact_quota_facts (q : Rat) (ae : Bool) (k : Nat) (votes : Votes) (n : Nat)
+    (hqe : q = sumVals votes / ((n : Rat) + k)) (hv : ∀ p ∈ votes, 0 ≤ p.2) (hV : 0 < sumVals votes) (hn : 1 ≤ n) :
+    0 < q ∧ (votes.map (·.2)).sum / q = (n : Rat) + k ∧
+      (votes.map (fun p => wholeQ q ae p.2)).sum ≤ (n : Int) + k ∧
+      (∀ p ∈ votes, wholeQ q ae p.2 ≤ (n : Int) + k) ∧
+      ((n : Int) + k) - (votes.map (fun p => wholeQ q ae p.2)).sum ≤ votes.length := by
+  have hnk : (0 : Rat) < (n : Rat) + k := by positivity
+  have hq : 0 < q := by rw [hqe]; exact div_pos hV hnk
+  have hVq : (votes.map (·.2)).sum / q = (n : Rat) + k := by
+    rw [← sumVals_eq, hqe, div_div_eq_mul_div, mul_comm, mul_div_assoc, div_self (ne_of_gt hV), mul_one]
+  have hs := sum_rems q ae votes
+  rw [hVq] at hs
+  have hb := sum_unit_bounds (votes.map (fun p => p.2 / q - (wholeQ q ae p.2 : Rat)))
+    (by
+      intro x hx
+      obtain ⟨p, _, rfl⟩ := List.mem_map.mp hx
+      exact rem_bounds hq ae)
+  rw [hs, List.length_map] at hb
+  refine ⟨hq, hVq, ?_, ?_, ?_⟩
+  · have : (((votes.map (fun p => wholeQ q ae p.2)).sum : Int) : Rat) ≤ (((n : Int) + k : Int) : Rat) := by
+      push_cast; linarith [hb.1]
+    exact_mod_cast this
+  · intro p hp
+    have h1 : p.2 / q ≤ (votes.map (fun p => p.2 / q)).sum :=
+      mem_le_sum _ (by
+        intro x hx
+        obtain ⟨p', hp', rfl⟩ := List.mem_map.mp hx
+        exact div_nonneg (hv p' hp') (le_of_lt hq)) _ (List.mem_map.mpr ⟨p, hp, rfl⟩)
+    rw [sum_map_div, hVq] at h1
+    have h2 := (rem_bounds (v := p.2) hq ae).1
+    have : ((wholeQ q ae p.2 : Int) : Rat) ≤ (((n : Int) + k : Int) : Rat) := by push_cast; linarith
+    exact_mod_cast this
+  · have : ((((n : Int) + k) - (votes.map (fun p => wholeQ q ae p.2)).sum : Int) : Rat) ≤ ((votes.length : Int) : Rat) := by
+      push_cast; linarith [hb.2]
+    exact_mod_cast this
+
+theorem getI_of_getCap {m : IMap} {c : Cand} {x : Int} (h : getCap m c = some x) (d : Int) :
+    getI m c d = x := by
+  unfold getCap at h
+  unfold getI
+  cases hf : m.find? (fun p => p.1 = c) with
+  | none => rw [hf] at h; cases h
+  | some y => rw [hf] at h; injection h
+
+/-! ### the counting argument behind the quota rule -/
+
+/-- for any quota under which the number of remainder seats `r` equals the sum of the exact remainders
+    (Hare: the shares add up to `n`), a party ends between the floor and the ceiling of its share -/
+theorem quota_rule_aux (q : Rat) (ae : Bool) (votes : Votes) (hnd0 : (votes.map (·.1)).Nodup)
+    (hv : ∀ p ∈ votes, 0 ≤ p.2) (hq : 0 < q) (r : Nat)
+    (hrnat : ((r : Nat) : Rat) = ((lrRems q ae [] [] votes).map (·.2)).sum)
+    (p : Cand × Rat) (hp : p ∈ votes) (seats : Int)
+    (hseats : seats = wholeQ q ae p.2 +
+      (if Slot.cand p.1 ∈ getNBest (lrRems q ae [] [] votes) r then 1 else 0)) :
+    ⌊p.2 / q⌋ ≤ seats ∧ seats ≤ ⌈p.2 / q⌉ := by
+  -- the remainder list
+  have hrems : lrRems q ae [] [] votes = votes.map (fun p => (p.1, p.2 / q - (wholeQ q ae p.2 : Rat))) :=
+    lrRems_plain hq ae votes hv
+  have hremvals : (lrRems q ae [] [] votes).map (·.2) = votes.map (fun p => p.2 / q - (wholeQ q ae p.2 : Rat)) := by
+    rw [hrems, List.map_map]; rfl
+  have hnn : ∀ e ∈ lrRems q ae [] [] votes, 0 ≤ e.2 := by
+    intro e he
+    rw [hrems] at he
+    obtain ⟨p', _, rfl⟩ := List.mem_map.mp he
+    exact (rem_bounds hq ae).1
+  have hnd : ((lrRems q ae [] [] votes).map (·.1)).Nodup :=
+    List.Nodup.sublist (keys_lrRems_sublist _ _ _ _ _) hnd0
+  have hpe : (p.1, p.2 / q - (wholeQ q ae p.2 : Rat)) ∈ lrRems q ae [] [] votes := by
+    rw [hrems]; exact List.mem_map.mpr ⟨p, hp, rfl⟩
+  have hfl := Int.floor_le (p.2 / q)
+  have hflt := Int.lt_floor_add_one (p.2 / q)
+  by_cases hedge : p.2 = q ∧ ae = false
+  · -- exactly one quota, accept_equal off: no whole quota, but the largest possible remainder
+    have hw : wholeQ q ae p.2 = 0 := by unfold wholeQ; rw [if_pos hedge]
+    have hx : p.2 / q = 1 := by rw [hedge.1, div_self (ne_of_gt hq)]
+    have hone : cntGe (lrRems q ae [] [] votes) 1 ≤ r := by
+      have := cntGe_one_le_sum _ hnn
+      rw [← hrnat] at this
+      exact_mod_cast this
+    have hel : Slot.cand p.1 ∈ getNBest (lrRems q ae [] [] votes) r := by
+      have := cntGe_le_elected (lrRems q ae [] [] votes) r
+        (p.1, p.2 / q - (wholeQ q ae p.2 : Rat)) hpe (by rw [hw, hx]; simpa using hone)
+      exact this
+    rw [if_pos hel, hw] at hseats
+    rw [hseats, hx]
+    simp
+  · have hw : wholeQ q ae p.2 = ⌊p.2 / q⌋ := by unfold wholeQ; rw [if_neg hedge]
+    rw [hw] at hseats
+    constructor
+    · rw [hseats]; split <;> omega
+    · by_cases hint : ((⌊p.2 / q⌋ : Int) : Rat) = p.2 / q
+      · -- an integral share: remainder 0, which never wins a seat
+        have hnot : Slot.cand p.1 ∉ getNBest (lrRems q ae [] [] votes) r := by
+          intro hel
+          have hzero : (0 : Rat) ∈ (lrRems q ae [] [] votes).map (·.2) := by
+            refine List.mem_map.mpr ⟨_, hpe, ?_⟩
+            simp only [hw]; linarith
+          have hub := sum_unit_le_pred ((lrRems q ae [] [] votes).map (·.2)) (by
+            intro x hx
+            rw [hremvals] at hx
+            obtain ⟨p', _, rfl⟩ := List.mem_map.mp hx
+            exact rem_bounds hq ae) hzero
+          rw [← hrnat, List.length_map] at hub
+          have hlen1 : 1 ≤ (lrRems q ae [] [] votes).length := List.length_pos_of_mem hpe
+          have hlt : r < (lrRems q ae [] [] votes).length := by
+            have : ((r : Nat) : Rat) < ((lrRems q ae [] [] votes).length : Rat) := by
+              linarith
+            exact_mod_cast this
+          have hc := elected_cntGe_le _ hnd _ hlt _ hpe hel
+          simp only [hw] at hc
+          have hz : p.2 / q - ((⌊p.2 / q⌋ : Int) : Rat) = 0 := by linarith
+          rw [hz, cntGe_zero_eq_length _ hnn] at hc
+          omega
+        rw [if_neg hnot] at hseats
+        rw [hseats]
+        simp only [add_zero]
+        exact Int.floor_le_ceil _
+      · have hlt : ((⌊p.2 / q⌋ : Int) : Rat) < p.2 / q := lt_of_le_of_ne hfl hint
+        have hc : ⌊p.2 / q⌋ + 1 ≤ ⌈p.2 / q⌉ := by
+          have := Int.le_ceil (p.2 / q)
+          have : ((⌊p.2 / q⌋ : Int) : Rat) < ((⌈p.2 / q⌉ : Int) : Rat) := lt_of_lt_of_le hlt this
+          have : ⌊p.2 / q⌋ < ⌈p.2 / q⌉ := by exact_mod_cast this
+          omega
+        rw [hseats]; split <;> omega
+
+
+
 /-! ### the fuel of the overshoot recursion is never exhausted -/
 
 theorem wholeStep_err {q : Rat} {ae : Bool} {n : Int} {prev maxS : IMap} {st : WState} {p : Cand × Rat} {e : Err}
